@@ -5,6 +5,8 @@ open Clipper.Props.C05
 #print axioms open_wind_insert
 #print axioms closed_unaffected_pair
 #print axioms closed_unaffected
+#print axioms closed_unaffected_step
+#print axioms closed_unaffected_run
 #print axioms open_toggle_step
 #print axioms open_toggle_inv
 #print axioms checkOpenInv_iff
